@@ -39,6 +39,11 @@ def run(ctx):
                 "agreement.  What remains undecided is only the run-time meaning of the resources themselves.")
     ctx.assume("jump targets patched by end_if/end_for_loop/end_sc_bool are the positions recorded by the matching "
                "start_*: guaranteed by the pending-block nesting that B1 checks")
+    # the composition constructs (extends / include / import / super) are scoped constructs too: the C06 rules about the
+    # block table, the layer cursor and the discard capture are clauses of this property as well
+    if not ctx.is_borrowed:
+        from . import c06 as _c06
+        _c06.run(ctx.borrowed("C06", "C05.B7:"))
     for cname in ctx.configs():
         prog = ctx.program(cname)
         tag = "" if cname == "MAX" else "[%s]" % cname
